@@ -903,7 +903,8 @@ def run(ctx):
                         if not hw.world_ok(w):
                             continue
                         if ctx.thorough and (dtype, dt) != ("float64", "dyadic") and (
-                                listed == "bs" or (not call and kind != "european")):
+                                listed is not None or (not call and kind != "european")
+                                or ul in ("merton", "kou", "vasicek")):
                             continue   # dtype / dt variants: one listing, puts for the European only
                         if ctx.quick:
                             minor = ul in ("merton", "kou", "cir", "vasicek")
